@@ -1023,6 +1023,7 @@ func (c *hctx) useStruct(s *hstruct, at ast.Node) {
 	if s.emitted {
 		return
 	}
+	s.emitted = true // set first: a struct that (through a slice or value field) contains its own type must not recurse forever
 	for i, ft := range s.ftypes {
 		switch ft.k {
 		case "int", "bool", "elem", "str", "hptr", "struct", "unit", "slice":
